@@ -144,25 +144,34 @@ class BufferRun:
     def call(self, clause, name, *a, **k):
         """Call method `name` on every sim; returns list of results or None if
         the code under test raised (recorded as violation `clause`)."""
-        outs = []
+        outs, excs = [], []
         for i, s in enumerate(self.sims):
             kk = dict(k)
             if "rng" in kk:
                 kk["rng"] = s.gen
             try:
                 outs.append(getattr(s.buf, name)(*a, **kk))
+                excs.append(None)
             except Exception as e:  # the code under test failed an operation whose precondition holds
                 if not raised_by_code_under_test(e):
                     raise
-                if (name == "sample_batch" and self.family == "sub" and not self.prio
-                        and isinstance(e, ValueError) and "high" in str(e)):
-                    # no admissible start: the generator was asked for integers(0, 0); vacuous
-                    self.res.log.add("sample-skip-no-admissible-start")
-                    self.res.probe("no_admissible_start")
-                    return None
-                self.V(clause, f"{name} raised {type(e).__name__}: {e}")
+                outs.append(None)
+                excs.append(e)
+        if any(e is not None for e in excs):
+            if "twin" in self.cl and len({type(e).__name__ if e is not None else "" for e in excs}) > 1:
+                self.res.violate("C19.a", self.site, f"{name}: original and reloaded twin disagree on raising: {[repr(e) for e in excs]}")
                 self.stopped = True
                 return None
+            e = [x for x in excs if x is not None][0]
+            if (name == "sample_batch" and self.family == "sub" and not self.prio
+                    and isinstance(e, ValueError) and "high" in str(e)):
+                # no admissible start: the generator was asked for integers(0, 0); vacuous
+                self.res.log.add("sample-skip-no-admissible-start")
+                self.res.probe("no_admissible_start")
+                return None
+            self.V(clause, f"{name} raised {type(e).__name__}: {e}")
+            self.stopped = True
+            return None
         if len(outs) == 2 and "twin" in self.cl:
             if not _same(outs[0], outs[1]):
                 self.res.violate("C19.a", self.site, f"{name}: reloaded twin returned a different result than the never-serialised original")
